@@ -1,0 +1,30 @@
+//! Verification-only scheduling points (compiled only with `--cfg rustrtc_verif`).
+//!
+//! A test harness may install a callback that is invoked at named points between the
+//! individual steps of the sample queues (`spsc`, `track`, `pipeline`), e.g. to yield the
+//! thread there and so explore interleavings that the OS scheduler would hit once in a
+//! million runs. Without a callback a point costs one relaxed load. Nothing here changes
+//! what the surrounding code does.
+
+use std::sync::atomic::{AtomicPtr, Ordering};
+
+static CALLBACK: AtomicPtr<()> = AtomicPtr::new(std::ptr::null_mut());
+
+/// Install (or remove) the process-wide callback.
+pub fn set_callback(cb: Option<fn(&'static str)>) {
+    let raw = match cb {
+        Some(f) => f as *mut (),
+        None => std::ptr::null_mut(),
+    };
+    CALLBACK.store(raw, Ordering::SeqCst);
+}
+
+#[inline]
+pub fn point(name: &'static str) {
+    let raw = CALLBACK.load(Ordering::Relaxed);
+    if !raw.is_null() {
+        // Safety: `raw` was produced from a `fn(&'static str)` in `set_callback`.
+        let f: fn(&'static str) = unsafe { std::mem::transmute::<*mut (), fn(&'static str)>(raw) };
+        f(name);
+    }
+}
